@@ -217,6 +217,9 @@ impl Hasher for Fnv {
 /// every description of `seq` is built into the same variable in turn (also as the only member of a
 /// product held in a second variable) and compared / hashed against a boxed copy built elsewhere
 fn slot_reuse_failure(seq: &[TD], hash: bool) -> Option<String> {
+    // every 4th time something fails on this thread first (a refused image construction, a rejected
+    // input, a user iterator or a user hasher that panics and is caught): nothing of it may reach the values below
+    something_fails_first_every(4);
     let r = observe(|| -> Option<String> {
         let mut slot: Term = seq[0].build();
         let mut outer: Term = Term::new_product(vec![seq[0].build()]);
@@ -482,6 +485,9 @@ fn build_how(t: &TD, how: How, rng: &mut Rng) -> Option<Term> {
 }
 
 fn pair_failure(da: &TD, db: &TD, how_a: How, how_b: How, hash: bool, reps: usize, rng: &mut Rng) -> Option<String> {
+    // every 4th time something fails on this thread first (a refused image construction, a rejected
+    // input, a user iterator or a user hasher that panics and is caught): nothing of it may reach the values below
+    something_fails_first_every(4);
     let expect = da.canon() == db.canon();
     for _ in 0..reps {
         let a = build_how(da, how_a, rng)?;
